@@ -169,7 +169,7 @@ func runC16(t *testing.T, tape *sim.Tape, tier string) *Outcome {
 func init() {
 	register(&Check{
 		ID: "C16", Bubble: true, Run: runC16,
-		Runs:   map[string]int{"quick": 4000, "thorough": 300000},
+		Runs:   map[string]int{"quick": 30000, "thorough": 1000000},
 		Rule:   "a case is one concurrent history: 2..4 (thorough ..8) lock-step clients x 1..4 (thorough ..6) operations over 1..3 keys from GET/SET/SETNX/GETSET/INCR/DECR/INCRBY/DECRBY/APPEND/MSETNX/DEL with unique written values, against the reference store (every handler-call entry is a scheduling point) or the bundled example store (every record access is a scheduling point); invocation/response stamped with global event sequence numbers; checked with porcupine against a sequential string model; distinct = distinct event-log hashes; non-trivial = at least two operations",
 		Real:   []string{"redis.Server accept loop, connection goroutines, dispatch, string executors and derived commands", "examples/go-redisd/server string store (half of the runs)"},
 		Stub:   []string{"network: simulated", "handler (other half): reference store with atomic primitives", "oracle: porcupine v1.3.0 + sequential string model"},
